@@ -337,6 +337,12 @@ class Run:
     def maps(self, comp, event):
         return event in getattr(type(comp), '__events__', {})
 
+    def line_budget(self):
+        """lines one guarded call (process, enabling assignment) may execute inside desper: the fixed budget for
+        ordinary histories plus an allowance proportional to the length of an amplified one (a release of two
+        thousand postponed callbacks, each of them queried from inside, is long but finite)"""
+        return PROCESS_BUDGET + 4000 * len(getattr(self, 'ops', ()))
+
     def call_op(self, fn, *a, **k):
         """Run a mutating operation of the implementation."""
         try:
@@ -855,7 +861,7 @@ class Run:
         try:
             self.in_process = True
             try:
-                _, used = with_budget(PROCESS_BUDGET, self.world.process, 1)
+                _, used = with_budget(self.line_budget(), self.world.process, 1)
             finally:
                 self.in_process = False
         except StepBudgetExceeded as exc:
@@ -933,7 +939,7 @@ class Run:
                 try:
                     self.in_process = True
                     try:
-                        with_budget(PROCESS_BUDGET, w.process, 1)
+                        with_budget(self.line_budget(), w.process, 1)
                     finally:
                         self.in_process = False
                 except StepBudgetExceeded as exc:
@@ -957,7 +963,7 @@ class Run:
                 try:
                     self.in_process = True
                     try:
-                        with_budget(PROCESS_BUDGET, w.process, 1)
+                        with_budget(self.line_budget(), w.process, 1)
                     finally:
                         self.in_process = False
                         self.no_react = False
@@ -1029,7 +1035,7 @@ class Run:
             self.no_react = True
             self.releasing, self.batch_done = True, False
             try:
-                with_budget(PROCESS_BUDGET, setattr, self.world, 'dispatch_enabled', True)
+                with_budget(self.line_budget(), setattr, self.world, 'dispatch_enabled', True)
             finally:
                 self.no_react = False
                 self.releasing = False
@@ -1144,7 +1150,7 @@ class Run:
     def q(self, fn, *a):
         try:
             return fn(*a)
-        except PropertyViolation:
+        except (PropertyViolation, StepBudgetExceeded):
             raise
         except Exception as exc:
             self.viol('query_raised', query=getattr(fn, '__name__', repr(fn)), args=repr(a), exception=repr(exc))
@@ -1274,7 +1280,7 @@ class Run:
         for _ in range(max(1, nbad)):
             self.frame_obs = None
             try:
-                with_budget(PROCESS_BUDGET, self.world.process, 1)
+                with_budget(self.line_budget(), self.world.process, 1)
                 ok = True
                 break
             except StepBudgetExceeded as exc:
@@ -1322,7 +1328,7 @@ class Run:
             # (listing every entity from inside every callback is quadratic: sampled in long histories)
             listed = (any(x == e for x in w.entities) if (len(self.known_ids) < 100 or self.inside_calls % 16 == 0)
                       else bool(exists))
-        except PropertyViolation:
+        except (PropertyViolation, StepBudgetExceeded):
             raise
         except Exception as exc:
             self.viol('query_raised', where='inside ' + kind, exception=repr(exc))
